@@ -10,6 +10,17 @@ TRUST = ("TLC 1.8 and the TLA+ semantics; harness/absmap.py (gamma builds real o
          "alpha reads public props/paths/errors); the bounded universes stated in the evidence file")
 
 CHECKS = {
+ "C19": dict(
+    text="TLC explores spec/MC_Migrate.tla: modules assembled row by row from a menu of import forms (one line, "
+         "parenthesised, backslash; aliases, star, relative, mixed mapped/unmapped names, unmapped modules) and other "
+         "statements (assignments, multi-line expressions, plain imports, strings that look like imports, def/try with "
+         "nested imports, docstrings, comments), alone or sharing a line, and checks the line-splice model against the "
+         "statement-level rewrite of spec/D42Migrate.tla. Every module is rendered and given to the real "
+         "rewrite_imports with the real mapping; input and output are abstracted with ast and decided by "
+         "spec/Trace_C19.tla (nothing-to-do only without mapped imports, output parses, other statements preserved in "
+         "order, bindings equal to the migrated ones). Every one of the mapping targets is imported.",
+    design="7 C19", technique="TLA+ statement-level rewrite vs line-splice model, TLC over module layouts; real "
+                              "rewriter output abstracted with ast and trace-validated by TLC"),
  "C18": dict(
     text="TLC explores spec/MC_Rollout.tla: every nested mapping of the bounded tree universe (labels incl. the empty "
          "string, optional on any leaf, optional top-level `...`) and every order of its flat keys, consumed one key at a "
